@@ -112,7 +112,7 @@ func c10Render(cfg *config.HookConfig) c10Eff {
 			tokBit(k.AllowFailure), tokList(k.IncludeSnapshotsFrom), tokStr(k.Queue), tokStr(k.Group), monitorPT(k.Monitor)))
 	}
 	for _, s := range cfg.Schedules {
-		e.scheds = append(e.scheds, fmt.Sprintf("name=%s c=%s af=%s inc=%s q=%s g=%s", tokStr(s.BindingName), tokStr(s.ScheduleEntry.Crontab), tokBit(s.AllowFailure),
+		e.scheds = append(e.scheds, fmt.Sprintf("name=%s c=%s af=%s inc=%s q=%s g=%s", tokStr(s.BindingName), tokCron(s.ScheduleEntry.Crontab), tokBit(s.AllowFailure),
 			tokList(s.IncludeSnapshotsFrom), tokStr(s.Queue), tokStr(s.Group)))
 	}
 	adm := func(name, group string, incl []string, fp *admv1.FailurePolicyType, sf *admv1.SideEffectClass, to *int32, pt string, whName string) string {
@@ -524,7 +524,7 @@ func c10ApplyTyped(rng *Rng, d c10Doc, fault string) c10Doc {
 	switch fault {
 	case "bad-crontab":
 		i := rng.Intn(len(d.Scheds))
-		d.Scheds[i].Crontab = PickOne(rng, []string{"61 * * * *", "not a cron", "* * *", "* * * * * * *", "*/0 * * * *", "1-5/00 * * * *", "", "@reboot", "1-0 * * * *"})
+		d.Scheds[i].Crontab = PickOne(rng, []string{"61 * * * *", "not a cron", "* * *", "* * * * * * *", "*/0 * * * *", "1-5/00 * * * *", "* * */0 * *", "0 0 1,2-3/0 * *", "* * * * * */-0", "", "@reboot", "1-0 * * * *"})
 	case "unknown-include":
 		switch k := rng.Intn(5); {
 		case k == 0 && len(d.Kubes) > 0:
